@@ -24,6 +24,8 @@ from hpstatic.terms import (sym, intern, show, subterms, calls_in, NONE, num, kw
 from hpstatic.xrnorm import atom_rewrite
 from .theories import detector_decide, IFQ
 
+MUTATION_TARGETS = {'holopy/core/metadata.py': ['make_subset_data', 'flat', 'from_flat', 'update_metadata', 'copy_metadata', 'detector_points', 'data_grid'], 'holopy/scattering/imageformation.py': ['_transform_to_desired_coordinates'], 'holopy/inference/result.py': ['forward']}
+
 LEVEL = 'other'
 META = dict(
     claimed=True,
